@@ -786,7 +786,7 @@ def extra_c17(pid, tier, seed, workdir, known, write_replay):
             cls, verdict = t[4], t[7]
             hist[cls] = hist.get(cls, 0) + 1
             v = verdict if isinstance(verdict, str) else sx(verdict)
-            if v not in ("ok", "inherited-panic"):
+            if v not in ("ok", "inherited-panic", "panic-on-accepted-source"):
                 items.append((f"corrupt#{cls}", f"{sx(t[1])} corruption {t[2]} ({sx(t[3])}): {v}", sx(t[1]), True))
         elif line.startswith("(emit-panic"):
             t = parse_sexp(line)[0]
